@@ -489,6 +489,18 @@ class Adapter:
                 return set()
             self.reg('B', b.id, b)
             return {b.id}
+        k = ev['k']
+        # observations that may be answered without loading the collection (count / emptiness / membership shortcuts)
+        pre = {}
+        pick = self.rng.randrange(4)
+        if pick == 0:
+            pre['count'] = a.bs.count()
+        elif pick == 1:
+            pre['empty'] = a.bs.is_empty()
+        elif pick == 2:
+            for (e2, k2), o2 in list(w.registry.items()):
+                if e2 == 'B':
+                    pre.setdefault('in', {})[k2] = o2 in a.bs
         form = self.rng.randrange(5)
         if form == 0:
             items = list(a.bs)
@@ -497,18 +509,35 @@ class Adapter:
         elif form == 2:
             items = list(a.bs.copy())
         elif form == 3:
-            if w.rel == 'm2m':
-                items = select(b for b in w.B if a in b.as_)[:]
-            else:
-                items = select(b for b in w.B if b.a == a)[:]
+            items = self.coll_query(a)
         else:
             items = a.bs.order_by(lambda b: b.id)[:]
         ids = self.reg_all('B', items)
-        n = self.rng.randrange(4)
-        size = len(a.bs) if n == 0 else a.bs.count() if n == 1 else len(ids) if n == 2 else (0 if a.bs.is_empty() else len(ids))
-        if size != len(ids):
-            raise Mismatch('read', 'A[%d].bs iterates as %r but its size is reported as %d' % (ev['k'], sorted(ids), size))
+        if 'count' in pre and pre['count'] != len(ids):
+            raise Mismatch('read', 'A[%d].bs.count() said %d before the collection was read, iteration gives %r' % (k, pre['count'], sorted(ids)))
+        if 'empty' in pre and pre['empty'] != (not ids):
+            raise Mismatch('read', 'A[%d].bs.is_empty() said %r before the collection was read, iteration gives %r' % (k, pre['empty'], sorted(ids)))
+        for k2, was_in in pre.get('in', {}).items():
+            if was_in != (k2 in ids):
+                raise Mismatch('read', 'B[%d] in A[%d].bs said %r, iteration gives %r' % (k2, k, was_in, sorted(ids)))
+        # every way of asking for the size, and the same question asked as a database query, must agree (C10)
+        sizes = {'len': len(a.bs), 'count': a.bs.count(), 'is_empty': 0 if a.bs.is_empty() else len(ids)}
+        for how, size in sizes.items():
+            if size != len(ids):
+                raise Mismatch('read', 'A[%d].bs iterates as %r but %s reports %d' % (k, sorted(ids), how, size))
+        again = set(o.id for o in list(a.bs))
+        if again != ids:
+            raise Mismatch('read', 'A[%d].bs read through form %d gives %r, plain iteration gives %r' % (k, form, sorted(ids), sorted(again)))
+        q = self.reg_all('B', self.coll_query(a))
+        if q != ids:
+            raise Mismatch('read', 'A[%d].bs is %r in the session but the equivalent query returns %r' % (k, sorted(ids), sorted(q)))
         return ids
+
+    def coll_query(self, a):
+        w = self.w
+        if w.rel == 'm2m':
+            return select(b for b in w.B if a in b.as_)[:]
+        return select(b for b in w.B if b.a == a)[:]
 
     def do_CollB(self, ev):
         b = self.obj('B', ev['k'])
@@ -564,6 +593,9 @@ class Adapter:
         if self.w.strategy == 'prefetch':
             items = self.prefetched(e)
         ids = self.reg_all(e, items)
+        ids2 = self.reg_all(e, select(x for x in E)[:])       # the same cacheable query every time (result cache)
+        if ids2 != ids:
+            raise Mismatch('read', 'select over %s: form %d returns %r, select(x for x in %s) returns %r' % (e, form, sorted(ids), e, sorted(ids2)))
         if self.rng.randrange(2):
             n = count(x for x in E) if self.rng.randrange(2) else E.select().count()
             if n != len(ids):
@@ -768,7 +800,9 @@ class Driver:
         u0 = rng.choice(g.inits)
         w.reset(g.nodes[u0]['db'])
         ad = Adapter(w, rng)
-        trace = [{'init': norm_plain(g.nodes[u0]['db'])}]
+        trace = [{'init': norm_plain(g.nodes[u0]['db']), 'open': g.nodes[u0]['sess'] == 'open'}]
+        if trace[0]['open']:
+            ad.do_Begin({})
         if self.on_behaviour:
             self.on_behaviour('begin', trace)
         self.stats['behaviours'] += 1
